@@ -189,6 +189,7 @@ theorem step_spec (p : Pattern) (w : World) (o : Op) (h : Coherent w.st) :
       cases p.follow
       · exact ⟨by first | rfl | trivial, h⟩
       · exact ⟨by first | rfl | trivial, restart_coherent _ h⟩
+  | probe => exact ⟨by first | rfl | trivial, h⟩
   | tx who lo msgs =>
     have hs := applyTx_spec who lo msgs w.st h
     simp only [step, stepG, specStep, World.abs]
@@ -279,6 +280,7 @@ theorem specRun_no_incoherent (ops : List Op) (w : SWorld) : Out.err .incoherent
     | openCfgs n => simp only [specStep]; split <;> simp
     | restart => simp only [specStep]; split <;> simp
     | commit => simp [specStep]
+    | probe => simp [specStep]
     | tx who lo msgs =>
       simp only [specStep]
       have := specTx_ne_incoherent who lo msgs w.db
